@@ -191,6 +191,45 @@ where V: VecN<Tok> + IntoIterator<Item = Tok> + 'static, V::IntoIter: DoubleEnde
     if s.wants_sample() { s.sample(json!({"type": V::NAME, "history": ["NextBack", "Observe", "Next", "Len", "Next", "<drop>"], "max_length": max_len})); }
 }
 
+// ---- two iterators in different cursor states compared with each other ----------------------------
+/// `a == b` / `a != b` for every ordered pair of cursor states of the stated set: neither operand's yielded elements may be read.
+/// The second vector's values are shifted so that both live windows start with equal values (the comparison cannot stop at the
+/// first element for a trivial reason).
+fn compare_pairs<V>(s: &Section)
+where V: VecN<Tok> + IntoIterator<Item = Tok> + 'static, V::IntoIter: DoubleEndedIterator + ExactSizeIterator + Debug + PartialEq + Hash {
+    let n = V::N;
+    let cur: Vec<usize> = if n <= 8 { (0..=n).collect() } else { let mut v = vec![0, 1, 2, n / 2, n - 2, n - 1, n]; v.sort(); v.dedup(); v };
+    let states: Vec<(usize, usize)> = cur.iter().flat_map(|&f| cur.iter().map(move |&b| (f, b))).filter(|&(f, b)| f + b <= n).collect();
+    let site = format!("{}::IntoIter", V::NAME);
+    let mut cnt = 0u64;
+    for &(f1, b1) in &states { for &(f2, b2) in &states {
+        tok::reset();
+        let v1 = V::from_elems((0..n).map(|i| Tok::with_val(1000 + i as u32)).collect::<Vec<_>>());
+        let v2 = V::from_elems((0..n).map(|i| Tok::with_val((1000 + i + f1 - f2) as u32)).collect::<Vec<_>>());
+        let (mut a, mut b) = (v1.into_iter(), v2.into_iter());
+        let mut held = Vec::new();
+        for _ in 0..f1 { let t = a.next().unwrap(); tok::mark_yielded(t.id); held.push(t); }
+        for _ in 0..b1 { let t = a.next_back().unwrap(); tok::mark_yielded(t.id); held.push(t); }
+        for _ in 0..f2 { let t = b.next().unwrap(); tok::mark_yielded(t.id); held.push(t); }
+        for _ in 0..b2 { let t = b.next_back().unwrap(); tok::mark_yielded(t.id); held.push(t); }
+        tok::set_watch(true);
+        let (e1, e2, n1) = (a == b, b == a, a != b);
+        tok::set_watch(false);
+        cnt += 1;
+        let differ = (f1, b1) != (f2, b2);
+        s.eval(differ);
+        if let Some(fl) = tok::faults().into_iter().next() {
+            s.violation_w(&site, "comparison-of-two-iterators-reads-moved-out-element", json!({"n": n, "left(front,back pulls)": [f1, b1], "right(front,back pulls)": [f2, b2], "what": fl}), (f1 + b1 + f2 + b2) as u64);
+        }
+        if e1 != e2 || n1 == e1 { s.violation_w(&site, "comparison-not-symmetric-or-ne-not-the-negation-of-eq", json!({"n": n, "left": [f1, b1], "right": [f2, b2], "a==b": e1, "b==a": e2, "a!=b": n1}), (f1 + b1 + f2 + b2) as u64); }
+        if s.wants_sample() && differ && f1 > 0 && b2 > 0 { s.sample(json!({"type": V::NAME, "left(front,back pulls)": [f1, b1], "right(front,back pulls)": [f2, b2], "a==b": e1})); }
+        drop(a); drop(b); drop(held);
+        if let Err((c, d)) = ledger_balanced(2 * n) { s.violation(&site, c, json!({"what": d, "left": [f1, b1], "right": [f2, b2]})); }
+    } }
+    s.class(V::NAME);
+    s.meta(V::NAME, json!({"cursor_states": states.len(), "ordered_pairs": cnt}));
+}
+
 // ---- conversions move each element exactly once ---------------------------------------------------
 fn ids(v: &[Tok]) -> Vec<u32> { v.iter().map(|t| t.id).collect() }
 fn fresh(n: usize) -> Vec<Tok> { tok::reset(); (0..n).map(|_| Tok::new()).collect() }
@@ -309,6 +348,12 @@ fn main() {
         histories::<Vec2<Tok>>(s, 2 + extra); histories::<Vec3<Tok>>(s, 3 + extra); histories::<Vec4<Tok>>(s, 4 + extra);
         histories::<Extent2<Tok>>(s, 2 + extra); histories::<Extent3<Tok>>(s, 3 + extra);
         histories::<Rgb<Tok>>(s, 3 + extra); histories::<Rgba<Tok>>(s, 4 + extra); histories::<Uv<Tok>>(s, 2 + extra); histories::<Uvw<Tok>>(s, 3 + extra);
+    });
+
+    rep.section("two consuming iterators in different cursor states compared with each other",
+        "for each of the 13 vector types: every ordered pair of cursor states (f1,b1),(f2,b2) (all states for N <= 8; cursors from {0,1,2,N/2,N-2,N-1,N} for N >= 16) of two REAL iterators over separately tracked tokens whose live windows start with equal values: a == b, b == a, a != b with the ledger watching - no element already yielded by either iterator may be read, == is symmetric and != its negation; afterwards the ledger balances; non-trivial: the two states differ", true, false, |s| {
+        s.require_classes(&["Vec2", "Vec3", "Vec4", "Vec8", "Vec16", "Vec32", "Vec64", "Extent2", "Extent3", "Rgb", "Rgba", "Uv", "Uvw"]);
+        for_all_vecs!(V => { compare_pairs::<V<Tok>>(s); });
     });
 
     rep.section("conversions move each element exactly once and keep the documented order",
